@@ -22,9 +22,9 @@ from fractions import Fraction
 
 import numpy as np
 
-from ..kit import cnat, cnatl, cz, czl, cbool, clist, REPO
+from ..kit import cnat, cnatl, cz, czl, cbool, clist, cq, cql, REPO
 
-HDR = ("From Coq Require Import ZArith List Bool.\nFrom NV.C12 Require Import Model.\n")
+HDR = ("From Coq Require Import ZArith List Bool QArith.\nFrom NV.Lib Require Import Harness.\nFrom NV.C12 Require Import Model.\nClose Scope Q_scope.\n")
 
 
 # ---------------------------------------------------------------- literals
@@ -254,12 +254,13 @@ def forest_section(ck):
             if (verdict == "Accept") != acyc:
                 ck.fail("forest-ctor/accepts-iff-acyclic", "Forest(%d, %s) -> %s but the array is %s" % (V, list(p), verdict, "acyclic" if acyc else "cyclic"),
                         {"V": V, "parents": list(p), "verdict": verdict})
-            if verdict != "Accept":
+            if verdict != "Accept" or not acyc:
+                # (an accepted cyclic array is reported above; its queries are meaningless and may not terminate)
                 add("verdict_eqb (ctor %s %s) %s" % (cnat(V), cnatl(p), verdict if verdict in ("RefuseValue", "RefuseIndex") else "Accept"),
                     "forest-ctor/model-vs-impl", "constructor verdict for parents %s: impl %s" % (list(p), verdict), {"V": V, "parents": list(p), "impl": verdict})
                 continue
             n_accept += 1
-            one_forest(ck, Forest, rng, p, add, exhaustive_masks=(V <= 4), extra=(1 if V <= 5 or ck.thorough() else 0))
+            safe_one_forest(ck, Forest, rng, p, add, exhaustive_masks=(V <= 4), extra=(1 if V <= 5 or ck.thorough() else 0))
     ck.section("forest", exhaustive_V_max=Vmax, arrays=n_arrays, accepted=n_accept)
 
     # out-of-range entries (non-negative: modelled; negative: oracle only)
@@ -311,11 +312,11 @@ def forest_section(ck):
         ck.count(("ctor", tuple(p)), bucket="random:V>=7:%s" % ("forest" if acyc else "cyclic"))
         if (verdict == "Accept") != acyc:
             ck.fail("forest-ctor/accepts-iff-acyclic", "Forest(%d, %s) -> %s but the array is %s" % (V, p, verdict, "acyclic" if acyc else "cyclic"), {"V": V, "parents": p, "verdict": verdict})
-        if verdict != "Accept":
+        if verdict != "Accept" or not acyc:
             add("verdict_eqb (ctor %s %s) %s" % (cnat(V), cnatl(p), verdict if verdict in ("RefuseValue", "RefuseIndex") else "Accept"),
                 "forest-ctor/model-vs-impl", "constructor verdict for parents %s: impl %s" % (p, verdict), {"V": V, "parents": p, "impl": verdict})
             continue
-        one_forest(ck, Forest, rng, tuple(p), add, exhaustive_masks=False, extra=2)
+        safe_one_forest(ck, Forest, rng, tuple(p), add, exhaustive_masks=False, extra=2)
     ck.section("forest", random_large=nbig, out_of_range_arrays=n_oor, model_terms=len(terms))
 
     if ck.build is not None and ck.build.ok:
@@ -338,6 +339,18 @@ def random_forest(rng, V, chainy=False):
     for i in range(V):
         p[perm[i]] = perm[par[i]]
     return p
+
+
+def safe_one_forest(ck, Forest, rng, p, add, **kw):
+    """an exception raised by a query of an accepted forest is a property failure with that forest as replay"""
+    try:
+        one_forest(ck, Forest, rng, p, add, **kw)
+    except (Exception, RecursionError) as e:  # noqa
+        import traceback
+        tb = traceback.extract_tb(e.__traceback__)
+        where = next((fr.name for fr in reversed(tb) if "nipy" in fr.filename), tb[-1].name)
+        ck.fail("forest-queries/raises/%s-in-%s" % (type(e).__name__, where), "a query of the accepted Forest(%d, %s) raised %s: %s" % (len(p), list(p), type(e).__name__, str(e)[:200]),
+                {"V": len(p), "parents": list(p), "exception": type(e).__name__, "where": where})
 
 
 def one_forest(ck, Forest, rng, p, add, exhaustive_masks, extra):
@@ -756,12 +769,61 @@ def morphology_section(ck):
 
 
 # ---------------------------------------------------------------- level sets, diffusion, subfield
-def levelsets_section(ck):
-    from nipy.algorithms.graph.field import Field
-    rng = ck.rng("levelsets")
-    n = ck.n(150, 1500)
-    terms, meta = [], []
-    for k in range(n):
+def d_bifurcations(V, nb, col, order):
+    """Direct definition: visit the vertices in `order` (non-increasing value); the already visited neighbours of i
+    lie in connected components of the visited set, recomputed FROM SCRATCH by graph search; the current region of
+    a component is the most recently created region present in it (= its largest label).  No component: new region.
+    One component: i joins its current region.  Several: i is a saddle, creates a region, which becomes the parent
+    of the merged regions.  idx[c] = first maximum of the field over region c."""
+    label = [-1] * V
+    visited = set()
+    parent = []
+    for i in order:
+        regions = set()
+        seen = set()
+        for j in nb[i]:
+            if j in visited and j not in seen:
+                comp, front = {j}, [j]
+                while front:
+                    x = front.pop()
+                    for y in nb[x]:
+                        if y in visited and y not in comp:
+                            comp.add(y)
+                            front.append(y)
+                seen |= comp
+                regions.add(max(label[x] for x in comp))
+        if len(regions) == 1:
+            label[i] = regions.pop()
+        else:
+            q = len(parent)
+            for c in regions:
+                parent[c] = q
+            parent.append(q)
+            label[i] = q
+        visited.add(i)
+    idx = []
+    for c in range(len(parent)):
+        members = [i for i in range(V) if label[i] == c]
+        idx.append(max(members, key=lambda m: (col[m], -m)))
+    return idx, parent, label
+
+
+def nesting_depth(parent):
+    """longest chain of regions region -> parent -> ... (number of nested saddles above a leaf)"""
+    best = 0
+    for c in range(len(parent)):
+        d, x = 0, c
+        while parent[x] != x and d <= len(parent):
+            x = parent[x]
+            d += 1
+        best = max(best, d)
+    return best
+
+
+def levelset_case(rng, k):
+    """(V, E symmetric, data (V, dim) float array of integers, kind)"""
+    kind = k % 6
+    if kind < 4:
         V = int(rng.integers(1, 11))
         dens = rng.choice([0.2, 0.4, 0.7])
         E = []
@@ -772,6 +834,53 @@ def levelsets_section(ck):
         levels = int(rng.choice([1, 2, 4, 30]))
         dim = 1 if k % 4 else int(rng.integers(2, 4))
         data = rng.integers(-levels if k % 2 else 0, levels + 1, (V, dim)).astype(float)   # every other case has negative values (basin maxima <= 0)
+        return V, E, data, "random"
+    # many maxima and deeply nested saddles: sparse graphs (paths, trees, grids, rings) with pairwise distinct values
+    V = int(rng.integers(6, 19))
+    shape = int(rng.integers(0, 4))
+    und = []
+    if shape == 0:      # path
+        und = [(i, i + 1) for i in range(V - 1)]
+    elif shape == 1:    # random tree with randomly numbered vertices
+        perm = [int(x) for x in rng.permutation(V)]
+        und = [(perm[i], perm[int(rng.integers(0, i))]) for i in range(1, V)]
+    elif shape == 2:    # grid, 2 or 3 rows
+        r = int(rng.integers(2, 4))
+        c = max(2, V // r)
+        V = r * c
+        und = [(a * c + b, a * c + b + 1) for a in range(r) for b in range(c - 1)] + [(a * c + b, (a + 1) * c + b) for a in range(r - 1) for b in range(c)]
+    else:               # ring with one chord
+        und = [(i, (i + 1) % V) for i in range(V)] + [(0, V // 2)]
+    E = []
+    for a, b in dict.fromkeys((min(a, b), max(a, b)) for a, b in und if a != b):
+        E += [(a, b), (b, a)]
+    if kind == 4:       # random permutation of distinct values
+        vals = [int(x) for x in rng.permutation(V)]
+    else:               # zigzag: high values on every other vertex, low values between them, the low ones nearly sorted
+        hi = [int(x) for x in rng.permutation(range(V // 2, V))]
+        lo = list(range(V // 2))
+        if rng.random() < 0.5:
+            lo.reverse()
+        for _ in range(int(rng.integers(0, 3))):
+            a, b = int(rng.integers(0, len(lo))), int(rng.integers(0, len(lo)))
+            lo[a], lo[b] = lo[b], lo[a]
+        vals = [hi[i // 2] if i % 2 == 0 else lo[i // 2] for i in range(V)]     # len(hi) = ceil(V/2) even places, len(lo) = floor(V/2) odd places
+        if rng.random() < 0.5:
+            vals = [V - 1 - v for v in vals][::-1] if rng.random() < 0.5 else vals[::-1]
+    shift = int(rng.integers(-V, 3))
+    data = np.array([v + shift for v in vals], dtype=float).reshape(V, 1)
+    return V, E, data, "nested"
+
+
+def levelsets_section(ck):
+    from nipy.algorithms.graph.field import Field
+    rng = ck.rng("levelsets")
+    n = ck.n(150, 1500)
+    terms, meta = [], []
+    depth_hist = {}
+    for k in range(n):
+        V, E, data, origin = levelset_case(rng, k)
+        dim = data.shape[1]
         refdim = int(rng.integers(0, dim))
         col = [int(x) for x in data[:, refdim]]
         vals = sorted(set(col))
@@ -779,7 +888,7 @@ def levelsets_section(ck):
         above = [c >= th for c in col]
         rp = {"V": V, "edges": [list(e) for e in E], "field": data.tolist(), "refdim": refdim, "th": th}
         ck.count(("level", V, tuple(E), data.tobytes(), refdim, th), nontrivial=V > 1 and any(above),
-                 bucket="levelsets:dim=%d:%s" % (dim, "none-above" if not any(above) else ("all-above" if all(above) else "some-above")))
+                 bucket="levelsets:%s:dim=%d:%s" % (origin, dim, "none-above" if not any(above) else ("all-above" if all(above) else "some-above")))
         nb = d_nbrs(V, E, False)
         dimtag = "dim=1" if dim == 1 else "multi-dim-field"
 
@@ -875,6 +984,16 @@ def levelsets_section(ck):
                 czl(col), cth, cnatl(order), cedges(E), czl(col), cth, cnatl(order), cnatl(bidx), cnatl(bpar), czl(blab)))
             meta.append(("threshold_bifurcations/model-vs-impl", "threshold_bifurcations(refdim=%d, th=%s) on V=%d edges=%s column %s (visit order %s): impl idx %s parent %s label %s" % (refdim, th, V, E, col, order, bidx, bpar, blab),
                          dict(rp, order=order, idx=bidx, parent=bpar, label=blab)))
+            # direct definition (components of the visited set recomputed from scratch)
+            nbs_above = [[j for j in nb[i] if above[j]] for i in range(V)]
+            eidx, epar, elab = d_bifurcations(V, nbs_above, col, order)
+            ndepth = nesting_depth(epar)
+            depth_hist[min(ndepth, 4)] = depth_hist.get(min(ndepth, 4), 0) + 1
+            if (bidx, bpar, blab) != (eidx, epar, elab):
+                ck.fail("threshold_bifurcations/direct-definition/%s" % ("saddle-nesting>=3" if ndepth >= 3 else "saddle-nesting<=2"),
+                        "threshold_bifurcations(refdim=%d, th=%s) on V=%d edges=%s column %s: idx %s parent %s label %s; regions of the visited set give idx %s parent %s label %s" % (
+                            refdim, th, V, E, col, bidx, bpar, blab, eidx, epar, elab),
+                        dict(rp, order=order, idx=bidx, parent=bpar, label=blab, expected_idx=eidx, expected_parent=epar, expected_label=elab, nesting_depth=ndepth))
         if berr is not None:
             if not any(above):
                 ck.fail("threshold_bifurcations/raises/no-vertex-above-threshold", "threshold_bifurcations(th=%s) raises %s when no vertex reaches the threshold" % (th, berr), rp)
@@ -913,24 +1032,59 @@ def levelsets_section(ck):
                 ck.fail("highest_neighbor/ignores-refdim/multi-dim-field", "highest_neighbor(refdim=%d) on V=%d edges=%s field=%s gives %s, expected %s" % (refdim, V, E, data.tolist(), hn, ehn),
                         dict(rp, got=hn, expected=ehn))
 
-        # ---- diffusion: n iterations = A^n f with A the weighted adjacency
-        w = rng.integers(1, 4, len(E)).astype(float)
+        # ---- diffusion: n iterations = A^n f with A the weighted adjacency (sum of the weights of repeated edges), computed
+        #      exactly; dyadic weights (also < 1), every field dtype, one call with nbiter = n and n calls with nbiter = 1
+        wq = [Fraction(int(x), 4) for x in rng.choice([1, 2, 4, 4, 8, 12], len(E))] if k % 2 else [Fraction(int(x)) for x in rng.integers(1, 4, len(E))]
+        w = np.array([float(x) for x in wq], dtype=float)
         nit = int(rng.integers(0, 4))
-        A = np.zeros((V, V))
-        for (a, b), ww in zip(E, w):
-            A[a, b] += ww
-        if E:
-            F = Field(V, np.array(E, dtype=np.int_), w, data.copy())
-        else:
-            F = Field(V, None, None, data.copy())
-        F.diffusion(nit)
-        exp = data.copy()
+        fdt = ["float64", "float32", "int32", "int64", "int16", "uint8"][k % 6]
+        fdata = (np.abs(data) if fdt == "uint8" else data).astype(fdt)
+        exp = [[Fraction(int(x)) for x in r] for r in fdata.tolist()]
         for _ in range(nit):
-            exp = A @ exp
-        got = np.asarray(F.field)
-        if got.shape != exp.shape or not np.array_equal(got, exp):
-            ck.fail("diffusion/adjacency-applied-n-times", "diffusion(%d) on V=%d edges=%s weights=%s field=%s gives %s, A^n f = %s" % (nit, V, E, w.tolist(), data.tolist(), got.tolist(), exp.tolist()),
-                    dict(rp, weights=w.tolist(), nbiter=nit, got=got.tolist(), expected=exp.tolist()))
+            nxt = [[Fraction(0)] * dim for _ in range(V)]
+            for (a, b), ww in zip(E, wq):
+                for d in range(dim):
+                    nxt[a][d] += ww * exp[b][d]
+            exp = nxt
+
+        def mk():
+            return Field(V, np.array(E, dtype=np.int_), w.copy(), fdata.copy()) if E else Field(V, None, None, fdata.copy())
+
+        for mode in ("nbiter=n", "n-calls"):
+            F = mk()
+            try:
+                if mode == "nbiter=n":
+                    F.diffusion(nit)
+                else:
+                    for _ in range(nit):
+                        F.diffusion(1)
+                got = np.asarray(F.field)
+                gotq = [[Fraction(*float(x).as_integer_ratio()) for x in r] for r in got.reshape(V, -1).tolist()] if got.shape == (V, dim) else "shape %s" % (got.shape,)
+            except Exception as e:  # noqa
+                gotq = "raises %s" % type(e).__name__
+            if gotq != exp:
+                ck.fail("diffusion/adjacency-applied-n-times/%s-field" % dtype_kind(fdt) + ("" if mode == "nbiter=n" else "/repeated-calls"),
+                        "diffusion [%s, n=%d] on V=%d edges=%s weights=%s %s field=%s gives %s, A^n f = %s" % (mode, nit, V, E, w.tolist(), fdt, fdata.tolist(), gotq if isinstance(gotq, str) else np.asarray(F.field).tolist(), [[float(x) for x in r] for r in exp]),
+                        dict(rp, weights=w.tolist(), nbiter=nit, field_dtype=fdt, mode=mode, expected=[[str(x) for x in r] for r in exp]))
+                break
+        if isinstance(gotq, list):
+            for d in range(dim):
+                terms.append("qlist_eqb (diffusion %s %s %s) %s" % (
+                    clist(["(%s, %s, %s)" % (cnat(a), cnat(b), cq(ww)) for (a, b), ww in zip(E, wq)]), cnat(nit), cql([Fraction(int(x)) for x in fdata[:, d].tolist()]), cql([r[d] for r in gotq])))
+                meta.append(("diffusion/model-vs-impl", "diffusion(%d) on V=%d edges=%s weights=%s %s column %s: impl %s" % (nit, V, E, w.tolist(), fdt, fdata[:, d].tolist(), [float(r[d]) for r in gotq]),
+                             dict(rp, weights=w.tolist(), nbiter=nit, field_dtype=fdt, column=d)))
+
+        # ---- the queries are pure: they leave the stored field (values, dtype, shape) as it was
+        for fn, args in (("local_maxima", (refdim, th)), ("get_local_maxima", (refdim, th)), ("custom_watershed", (refdim, th)),
+                         ("threshold_bifurcations", (refdim, th)), ("highest_neighbor", (refdim,))):
+            F = mk_field(Field, V, E, data.copy())
+            try:
+                getattr(F, fn)(*args)
+            except Exception:  # noqa  (reported by the sub-check of that function)
+                continue
+            after = np.asarray(F.field)
+            if after.dtype != data.dtype or after.shape != data.shape or not np.array_equal(after, data):
+                ck.fail("%s/modifies-the-field" % fn, "%s%s on V=%d edges=%s changed the stored field from %s to %s" % (fn, args, V, E, data.tolist(), after.tolist()), dict(rp, fn=fn, after=after.tolist()))
 
         # ---- subfield
         valid = rng.integers(0, 2, V).astype(bool)
@@ -1024,7 +1178,7 @@ def levelsets_section(ck):
                 if [x > 0 for x in got] != ismax:
                     ck.fail("local_maxima/depth-positive-iff-no-higher-neighbour/%s-dtype" % dk, "local_maxima(th=%s) on V=%d edges=%s %s field %s gives %s; local maxima are %s" % (th, V, E, dt, col, got, ismax),
                             dict(rp, got=got, expected_maxima=ismax))
-    ck.section("levelsets", cases=n, dtype_cases=nd, watershed_model_terms=len(terms))
+    ck.section("levelsets", cases=n, dtype_cases=nd, model_terms=len(terms), bifurcation_nesting_depth_histogram={("depth%s%d" % (">=" if d == 4 else "=", d)): c for d, c in sorted(depth_hist.items())})
     if ck.build is not None and ck.build.ok:
         res = ck.coq_bools(HDR, terms, name="levelsets")
         ck.cov["traces_validated_against_impl"] += len(res)
